@@ -542,6 +542,6 @@ def run(ctx):
     # are long-standing documented-by-behaviour Cython semantics whose repair breaks `total = 0; total += x[i]` idioms in nogil code: recorded as known findings K11
     return [rule_SST(ctx), rule_V3(ctx, vis), rule_OPS(ctx, vis), v1, rule_WIRE(ctx, vis), rule_NAME(ctx), sC40.rule_BOOL(ctx), sC40.rule_PYTYPE(ctx),
             sC40.rule_ENV(ctx, vis), sC40.rule_WIDTH(ctx), sC40.rule_LITRANGE(ctx), sC40.rule_NONE(ctx), sC40.rule_DEL(ctx), sC40.rule_RANGEVAR(ctx),
-            # sC40.rule_CLOSURE(ctx),        # pending finding (/tmp/strengthen4/G9/FINDING_2.md): might_overflow of a closure variable is set on the InnerEntry only
-            # sC40.rule_FORWARD(ctx, vis),   # pending finding (/tmp/strengthen4/G9/FINDING_3.md): CondExprNode / BoolBinopNode are visited as "safe"
+            sC40.rule_CLOSURE(ctx),          # known finding K12: might_overflow of a closure variable is set on the InnerEntry only (the repair changes inference results that upstream doctests pin)
+            sC40.rule_FORWARD(ctx, vis),     # found CondExprNode / BoolBinopNode visited as "safe" (repaired: a4c81cd1f)
             ]
